@@ -49,6 +49,10 @@ type Case struct {
 	DefB   bool     `json:"def_b"`
 	DefF   float64  `json:"def_f"`
 	Double bool     `json:"double_encoded,omitempty"` // V is sent double-encoded (for QueryUnescape)
+	// Form: the request is a POST with a urlencoded body that carries other
+	// values under the same key, and a middleware calls ParseForm first; the
+	// Query accessors speak about the URL query only.
+	Form bool `json:"form_body,omitempty"`
 }
 
 func unq(s string) string {
@@ -130,6 +134,7 @@ type seen struct {
 	pi                          int
 	pi64                        int64
 	cookie, rawCookie, missing  string
+	cookie2                     string
 }
 
 func checkCase(c Case) (out evid.Outcome) {
@@ -142,7 +147,12 @@ func checkCase(c Case) (out evid.Outcome) {
 		ctx.SetCookie(http.Cookie{Name: "ck", Value: ck, Path: "/"})
 		setCookieHeader = ctx.ResponseWriter().Header().Get("Set-Cookie")
 	})
-	f.Get("/q/{v}", func(ctx flamego.Context) {
+	f.Use(func(ctx flamego.Context) {
+		if c.Form {
+			_ = ctx.Request().ParseForm()
+		}
+	})
+	f.Routes("/q/{v}", "GET,POST", func(ctx flamego.Context) {
 		ran = true
 		s.q, s.qd = ctx.Query("k"), ctx.Query("k", c.DefS)
 		s.trim, s.trimd = ctx.QueryTrim("k"), ctx.QueryTrim("k", c.DefS)
@@ -154,6 +164,7 @@ func checkCase(c Case) (out evid.Outcome) {
 		s.f, s.fd = ctx.QueryFloat64("k"), ctx.QueryFloat64("k", c.DefF)
 		s.param, s.pi, s.pi64 = ctx.Param("v"), ctx.ParamInt("v"), ctx.ParamInt64("v")
 		s.cookie, s.rawCookie, s.missing = ctx.Cookie("ck"), ctx.Cookie("raw"), ctx.Cookie("nosuch")
+		s.cookie2 = ctx.Cookie("ck") // reading is repeatable
 		_ = ctx.Params()
 		_ = ctx.RemoteAddr()
 	})
@@ -196,6 +207,11 @@ func checkCase(c Case) (out evid.Outcome) {
 	h.Set("Cookie", cookieHeader)
 	seg := enc(param)
 	req := rt.NewRequest("GET", "/q/"+seg, h)
+	if c.Form {
+		req.Method = "POST"
+		h.Set("Content-Type", "application/x-www-form-urlencoded")
+		req.Body = io.NopCloser(strings.NewReader("k=from-body&k=2&other=body&onlybody=1"))
+	}
 	req.URL.RawQuery = query
 	func() {
 		defer func() { escaped = recover() }()
@@ -225,10 +241,17 @@ func checkCase(c Case) (out evid.Outcome) {
 		nt = true
 		out.Classes = append(out.Classes, "raw-query-or-cookie")
 	}
+	if c.Form {
+		nt = true
+		out.Classes = append(out.Classes, "post-with-parsed-form")
+	}
 
 	// ---- cookie round trip (independent of the query part)
 	if ran && s.cookie != ck {
 		return evid.Fail("cookie-roundtrip", "SetCookie(%q) produced %q; sent back, Cookie() returns %q", ck, setCookieHeader, s.cookie)
+	}
+	if ran && s.cookie2 != ck {
+		return evid.Fail("cookie-second-read", "SetCookie(%q): the first Cookie() returns %q, a second read in the same request returns %q", ck, s.cookie, s.cookie2)
 	}
 	if ran && c.RawCk != "" {
 		// a raw value made of plain cookie octets is present: it is returned,
@@ -473,6 +496,7 @@ func genCase(t *rapid.T) Case {
 		}
 		c.Raw = strconv.QuoteToASCII(raw)
 	}
+	c.Form = rapid.IntRange(0, 3).Draw(t, "form") == 0
 	if rapid.IntRange(0, 4).Draw(t, "rawck") == 0 {
 		c.RawCk = strconv.QuoteToASCII([]string{"%zz", "a b", "\"q\"", "x;y", "a=b", "%41", "\xff", "", "a+b%20c", "%4", "100%"}[rapid.IntRange(0, 10).Draw(t, "rck")])
 		if unq(c.RawCk) == "" {
